@@ -184,6 +184,13 @@ def gen_fairness(rng, n):
     for _ in range(k):
         P = sorted(set(rng.randrange(n) for _ in range(rng.randint(1, 2))))
         F.append(P)
+    if k > 1 and rng.random() < 0.4:
+        # constraints that overlap: one state serves two of them
+        s = rng.choice(F[0])
+        j = rng.randrange(1, k)
+        F[j] = sorted(set(F[j]) | {s})
+        if rng.random() < 0.5:
+            F[0] = sorted(set(F[0]) | {rng.randrange(n)})
     return F
 
 
